@@ -119,6 +119,8 @@ func Region(from, to *ssa.BasicBlock) map[*ssa.BasicBlock]bool {
 // KnownNonNilError reports whether v is certainly a non-nil error: the result
 // of fmt.Errorf / errors.New, a MakeInterface of a concrete value, or a value
 // that the dominating conditions of block b prove non-nil.
+var nonNilBusy = map[*ssa.Function]bool{}
+
 func KnownNonNilError(v ssa.Value, b *ssa.BasicBlock) bool {
 	switch x := v.(type) {
 	case *ssa.MakeInterface:
@@ -126,6 +128,21 @@ func KnownNonNilError(v ssa.Value, b *ssa.BasicBlock) bool {
 	case *ssa.Call:
 		if CalleeIs(x, "fmt", "Errorf") || CalleeIs(x, "errors", "New") {
 			return true
+		}
+		// an error constructor: a function with a single (error) result that returns a provably non-nil error on every path
+		if h := x.Call.StaticCallee(); h != nil && len(h.Blocks) > 0 && len(h.Blocks) <= 8 && h.Signature.Results().Len() == 1 && !nonNilBusy[h] {
+			nonNilBusy[h] = true
+			all, n := true, 0
+			for _, ret := range Returns(h) {
+				n++
+				if !KnownNonNilError(RetResults(ret)[0], ret.Block()) {
+					all = false
+				}
+			}
+			delete(nonNilBusy, h)
+			if all && n > 0 {
+				return true
+			}
 		}
 	case *ssa.Phi:
 		// all edges must be non-nil in their predecessor blocks
